@@ -8,3 +8,5 @@ pub mod plain;
 mod bigint;
 #[cfg(kani)]
 mod ser;
+#[cfg(kani)]
+mod field;
